@@ -77,7 +77,28 @@ func guarded(f func() ([]byte, error)) (out []byte, res string) {
 	}
 }
 
+// outputs of earlier encoder calls, kept exactly as returned (a cache keeps them for the lifetime of the entry)
+type keptStream struct {
+	format string
+	level  int
+	cls    string
+	body   []byte
+	data   []byte
+}
+
+func stdDecode(format string, data []byte) ([]byte, error) {
+	if format == "gzip" {
+		rd, err := gzip.NewReader(bytes.NewReader(data))
+		if err != nil {
+			return nil, err
+		}
+		return io.ReadAll(rd)
+	}
+	return io.ReadAll(brotli.NewReader(bytes.NewReader(data)))
+}
+
 func suiteCodecs(r *rng, n int) {
+	var kept []keptStream
 	for i := 0; i < n; i++ {
 		cr := r.fork(uint64(i))
 		body, cls := codecBody(cr)
@@ -124,6 +145,23 @@ func suiteCodecs(r *rng, n int) {
 				}
 			}
 			emit("codecs", "enc", "br", itoa(int64(bl)), hx(cls), itoa(int64(len(body))), "=>", res)
+			// the streams produced by EARLIER calls must still decode to their own input after these calls
+			for _, k := range kept {
+				kres := "ok"
+				if d, err := stdDecode(k.format, k.data); err != nil || !bytes.Equal(d, k.body) {
+					kres = "retained"
+				}
+				emit("codecs", "enc", k.format, itoa(int64(k.level)), hx(k.cls), itoa(int64(len(k.body))), "=>", kres)
+			}
+			if r1 == "ok" {
+				kept = append(kept, keptStream{"gzip", gl, cls, body, gz})
+			}
+			if r2 == "ok" {
+				kept = append(kept, keptStream{"br", bl, cls, body, br})
+			}
+			if len(kept) > 4 {
+				kept = kept[len(kept)-4:]
+			}
 			stat("enc")
 		case 1: // decoders on reference streams
 			srv := compress.Get("")
